@@ -27,13 +27,13 @@ func init() {
 	sim.Register(&sim.Scenario{Prop: "C16", Name: "crawler", Weight: 3, Run: func(s *sim.Sim) { runC16Crawler(s, "wide") },
 		Real: real, Stub: stub,
 		Faults: []string{"fault_dial_fail", "fault_rpc_error", "fault_dial_timeout", "fault_rpc_timeout", "fault_cancel", "time_advance",
-			"probe_dial_failure_during_crawl", "probe_partial_query_failure", "probe_crawl_multi_hop", "probe_seed_addr_from_peerstore", "probe_preconnected_peer"}})
+			"probe_dial_failure_during_crawl", "probe_partial_query_failure", "probe_crawl_multi_hop", "probe_seed_addr_from_peerstore", "probe_preconnected_peer", "probe_seed_without_address", "probe_addrless_seed_reachable_by_referral"}})
 	sim.Register(&sim.Scenario{Prop: "C16", Name: "crawler-narrow", Weight: 2, Run: func(s *sim.Sim) { runC16Crawler(s, "narrow") },
 		Real: real, Stub: stub,
-		Faults: []string{"fault_dial_fail", "fault_rpc_error", "probe_dial_failure_during_crawl", "probe_partial_query_failure", "probe_crawl_queue_longer_than_workers"}})
+		Faults: []string{"fault_dial_fail", "fault_rpc_error", "probe_dial_failure_during_crawl", "probe_partial_query_failure", "probe_crawl_queue_longer_than_workers", "probe_seed_without_address", "probe_addrless_seed_reachable_by_referral"}})
 	sim.Register(&sim.Scenario{Prop: "C16", Name: "crawler-dup-seeds", Weight: 1, Run: func(s *sim.Sim) { runC16Crawler(s, "dup") },
 		Real: real, Stub: stub,
-		Faults: []string{"probe_dup_seed"}})
+		Faults: []string{"probe_dup_seed", "probe_dup_seed_only_later_entry_has_address", "probe_seed_without_address", "probe_addrless_seed_reachable_by_referral"}})
 }
 
 // runC16Crawler drives crawler.DefaultCrawler directly.
@@ -51,7 +51,14 @@ func init() {
 // modes, so the outcome of a crawl does not depend on the order.
 //
 // mode "dup":    like "wide", and one seed is listed twice (separate input
-// class, rule dup-seed-crawled-twice).
+// class, rule dup-seed-crawled-twice); the two entries may differ in whether
+// they carry addresses.
+//
+// All modes: some seeds are "bare" - no address in the AddrInfo and none in the
+// host's peerstore. Run skips such an entry without an outcome; the peer must
+// nevertheless be crawled when a later entry of the seed list carries
+// addresses for it, or when a fully and successfully queried peer names it
+// (replies carry addresses): see the must-closure in checkCrawl.
 func runC16Crawler(s *sim.Sim, mode string) {
 	s.MaxSteps = 1500
 	var n int
@@ -88,12 +95,19 @@ func runC16Crawler(s *sim.Sim, mode string) {
 	}
 	oc := &obsCrawler{Inner: dc, H: h}
 
-	// seeds: 1..3 distinct peers; some known to the host only through its peerstore
-	nSeeds := s.Range("seeds", 1, 3)
+	// seeds: 1..4 distinct peers. A seed's addresses come with its AddrInfo, or
+	// only from the host's peerstore, or from nowhere at all ("bare": the
+	// AddrInfo is a bare peer id and the peerstore knows nothing - what
+	// fullrt.runCrawler hands over for every peer of the previous crawl whose
+	// peerstore entry has expired). bareLevel 0 is the benign input (every seed
+	// is dialable from the start).
+	nSeeds := s.Range("seeds", 1, 4)
 	if nSeeds > n {
 		nSeeds = n
 	}
+	bareLevel := s.Draw("bare-seeds", 3)
 	var seeds []*peer.AddrInfo
+	var seedPeers, bare, addressed []*simnet.Peer
 	used := map[int]bool{}
 	for len(seeds) < nSeeds {
 		i := rng.Intn(n)
@@ -103,17 +117,80 @@ func runC16Crawler(s *sim.Sim, mode string) {
 		used[i] = true
 		p := u.Peers[i]
 		ai := p.AddrInfo()
-		if mode != "narrow" && rng.Intn(4) == 0 {
+		switch x := rng.Intn(8); {
+		case x < []int{0, 2, 5}[bareLevel]:
+			ai.Addrs = nil
+			bare = append(bare, p)
+			s.Count("probe_seed_without_address")
+		case x >= 6 && mode != "narrow":
 			h.Peerstore().AddAddrs(p.ID, p.Addrs, peerstore.PermanentAddrTTL)
 			ai.Addrs = nil
+			addressed = append(addressed, p)
 			s.Count("probe_seed_addr_from_peerstore")
+		default:
+			addressed = append(addressed, p)
 		}
 		seeds = append(seeds, &ai)
+		seedPeers = append(seedPeers, p)
 	}
 	if mode == "dup" {
-		dup := *seeds[rng.Intn(len(seeds))]
-		seeds = append(seeds, &dup)
+		// one seed is listed twice: the same entry twice, or two entries of which
+		// only the later / only the earlier one carries addresses, or two bare ones
+		i := rng.Intn(len(seeds))
+		p := seedPeers[i]
+		dup := *seeds[i]
+		isBare := func() bool {
+			for _, q := range bare {
+				if q == p {
+					return true
+				}
+			}
+			return false
+		}()
+		switch rng.Intn(4) {
+		case 1: // only the later entry carries addresses
+			if !isBare {
+				h.Peerstore().ClearAddrs(p.ID)
+				seeds[i].Addrs = nil
+			}
+			dup.Addrs = p.Addrs
+			s.Count("probe_dup_seed_only_later_entry_has_address")
+		case 2: // only the earlier entry carries addresses (unless it has none either)
+			dup.Addrs = nil
+		case 3: // both bare
+			if !isBare {
+				h.Peerstore().ClearAddrs(p.ID)
+				seeds[i].Addrs = nil
+				bare = append(bare, p)
+				for k, q := range addressed {
+					if q == p {
+						addressed = append(addressed[:k:k], addressed[k+1:]...)
+						break
+					}
+				}
+			}
+			dup.Addrs = nil
+		}
+		// the second entry goes anywhere after the first
+		at := i + 1 + rng.Intn(len(seeds)-i)
+		seeds = append(seeds[:at:at], append([]*peer.AddrInfo{&dup}, seeds[at:]...)...)
 		s.Count("probe_dup_seed")
+	}
+	// a bare seed is usually somebody's neighbour: another seed, or any peer,
+	// names it (with its addresses, like every referral) in one of its replies
+	for _, b := range bare {
+		if n < 2 || rng.Intn(4) == 0 {
+			continue
+		}
+		var x *simnet.Peer
+		if len(addressed) > 0 && rng.Intn(2) == 0 {
+			x = addressed[rng.Intn(len(addressed))]
+		} else {
+			x = u.Peers[rng.Intn(n)]
+		}
+		if x != b {
+			w.addRef(w.Beh[x.ID], b, rng)
+		}
 	}
 	// some peers are connected already (Connect returns at once for them)
 	if mode == "wide" {
@@ -128,7 +205,7 @@ func runC16Crawler(s *sim.Sim, mode string) {
 	if mode == "wide" && s.Chance("cancel", 1, 6) {
 		cancelAt = s.Range("cancel-at", 1, 120)
 	}
-	s.Summary["cfg"] = fmt.Sprintf("mode=%s N=%d parallelism=%d seeds=%d faults=%d connectTimeout=%v cancelAt=%d", mode, n, par, len(seeds), faultLevel, connectTimeout, cancelAt)
+	s.Summary["cfg"] = fmt.Sprintf("mode=%s N=%d parallelism=%d seeds=%d bare=%d faults=%d connectTimeout=%v cancelAt=%d", mode, n, par, len(seeds), len(bare), faultLevel, connectTimeout, cancelAt)
 
 	ctx, cancel := context.WithCancel(context.Background())
 	defer cancel()
